@@ -2246,6 +2246,37 @@ fn gen_c08(r: &mut Rng, seed: u64) -> Scenario {
         b.world.files.push(FileSpec { path: B::s(path), content: B(img.file.clone()), mode: 0o100644 });
         push_tags(&mut tags, &["id-only-in-file"]);
     }
+    // a relocatable object (`ld -r --build-id`, the way a kernel module is made) mapped whole as plain
+    // data by a tool: no program headers, every section address is 0, the note is found through the
+    // section table at its file offset only. It has no loaded form; what an ELF reader finds in the file
+    // is what identifies it.
+    if r.chance(1, 6) {
+        let spec = crate::elfgen::ElfSpec { build_id: Some(r.bytes(20)), note_in_phdr: false, soname: None, sections: true, text_pages: 1, text_seed: r.next(), dt_debug: false, dyn_pad: 0, with_pt_phdr: false, sections_at_end: false, rodata_before_text: false, data_gap_pages: 0, link_base: 0, text_sec_skip: 0, moved_tables: false, force_dyn: false, note_name_last: false, small_align: false };
+        let img = crate::elfgen::build(&spec);
+        let mut f = img.file.clone();
+        f[16..18].copy_from_slice(&1u16.to_le_bytes()); // ET_REL
+        f[24..32].copy_from_slice(&0u64.to_le_bytes()); // no entry point
+        f[32..40].copy_from_slice(&0u64.to_le_bytes()); // e_phoff
+        f[54..56].copy_from_slice(&0u16.to_le_bytes()); // e_phentsize
+        f[56..58].copy_from_slice(&0u16.to_le_bytes()); // e_phnum
+        let shoff = u64::from_le_bytes(f[40..48].try_into().unwrap()) as usize;
+        let shnum = u16::from_le_bytes(f[60..62].try_into().unwrap()) as usize;
+        for i in 0..shnum {
+            let o = shoff + i * 64 + 16;
+            f[o..o + 8].copy_from_slice(&0u64.to_le_bytes()); // sh_addr
+        }
+        let base = LIB_BASE + 0x6800_0000;
+        let path = "/opt/tools/module.ko";
+        let len = (f.len() as u64 + 0xfff) & !0xfff;
+        if !b.world.regions.iter().any(|g| g.start < base + len + 0x1000 && base - 0x1000 < g.end()) {
+            let mut mem = f.clone();
+            mem.resize(len as usize, 0);
+            b.world.regions.push(RegionSpec { start: base, len, perms: "r--p".into(), offset: 0, inode: 8383, name: B::s(path), deleted: false, content: Content::Bytes(B(mem)) });
+            b.world.regions.sort_by_key(|g| g.start);
+            b.world.files.push(FileSpec { path: B::s(path), content: B(f), mode: 0o100644 });
+            push_tags(&mut tags, &["relocatable-object-mapped-as-data"]);
+        }
+    }
     // a library embedded in an archive: executable mapping from a non-zero file offset
     if r.chance(1, 3) {
         let spec = crate::elfgen::ElfSpec { build_id: Some(r.bytes(20)), note_in_phdr: true, soname: Some("libembedded.so".into()), sections: r.coin(), text_pages: 1, text_seed: r.next(), dt_debug: false, dyn_pad: 0, with_pt_phdr: false, sections_at_end: false, rodata_before_text: false, data_gap_pages: 0, link_base: 0, text_sec_skip: 0, moved_tables: false, force_dyn: false, note_name_last: false, small_align: false };
